@@ -10,10 +10,13 @@ patterns):
 * `idxA`, `idxB` — the index an operand has under an aliasing pattern in the general placement `c a b`;
 * `ag1 … agAA` — the canonical stores of `Wrap.lean` agree (through `rho`) with ANY store holding the operands;
 * `place_get3`, `place_get2`, `place_flag`, `place_opt` — `place`/`placeT` packaged for the four result kinds;
-* `run1_anywhere … runAA_anywhere` — the above combined per wrapper of `Wrap.lean`.
+* `optRes`, `optRes_spec`, `optRes_none` — the `Option`-valued wrappers (`toa`, `runAA`) read as flag + output;
+* tactic macros `inj_w` (hypothesis `hinj` by `rho_inj_w` + `omega`), `place_map`, `place_map2` (the renamed
+  canonical program is the program at the new indices, for ecp.c / ec2.c).
 Everything is generic in the field record (no Mathlib): `cv : Curve F` is `curveF A B` resp. `curveB A B` later.
 -/
 import Bee2V.C06.LemmasPlace2
+import Bee2V.C06.Wrap2
 namespace Bee2V.C06
 
 /-! ### def-use with the output checked on the TRUE paths only -/
@@ -99,7 +102,7 @@ def SW (wc wa wb : Nat) (i : Nat) : Bool :=
 
 /-- blocks of widths `wc, wa, wb ≤ 3` at `c, a, b`: above `A`, `B`, below the stack, pairwise disjoint
     (a block of width 0 is absent) -/
-theorem rho_inj_w {wc wa wb c a b s : Nat} (hwc : wc ≤ 3) (hwa : wa ≤ 3) (hwb : wb ≤ 3)
+theorem rho_inj_w {wc wa wb c a b s : Nat} (hwc : wc ≤ 3) (hwa : wa ≤ 3) (hwb : wb ≤ 3) (hs : 2 ≤ s)
     (hc : wc = 0 ∨ (2 ≤ c ∧ c + wc ≤ s)) (ha : wa = 0 ∨ (2 ≤ a ∧ a + wa ≤ s))
     (hb : wb = 0 ∨ (2 ≤ b ∧ b + wb ≤ s))
     (hca : wc = 0 ∨ wa = 0 ∨ c + wc ≤ a ∨ a + wa ≤ c)
@@ -159,31 +162,31 @@ variable {F : Type} {cv : Curve F} {c a b s : Nat} {st : Store F}
 theorem ag1 (al : Al) (hal : al = .n ∨ al = .ca) (hA : st.get rA = cv.A) (hB : st.get rB = cv.B) :
     ∀ i, i ∈ D1 al → st.get (rho c a b s i) = (put3 (base cv) (slotA al) (get3 st (idxA al c a))).get i := by
   rcases hal with rfl | rfl <;>
-    simp [D1, slotA, idxA, rho, put3, upd, base, get3, cX, cY, cZ, hA, hB, rA, rB]
+    simp [D1, slotA, sc, sa, idxA, rho, put3, upd, base, get3, cX, cY, cZ, hA, hB, rA, rB]
 
 theorem ag1a (al : Al) (hal : al = .n ∨ al = .ca) (hA : st.get rA = cv.A) (hB : st.get rB = cv.B) :
     ∀ i, i ∈ D1a al → st.get (rho c a b s i) = (put2 (base cv) (slotA al) (get2 st (idxA al c a))).get i := by
   rcases hal with rfl | rfl <;>
-    simp [D1a, slotA, idxA, rho, put2, upd, base, get2, cX, cY, hA, hB, rA, rB]
+    simp [D1a, slotA, sc, sa, idxA, rho, put2, upd, base, get2, cX, cY, hA, hB, rA, rB]
 
 theorem ag2 (al : Al) (hal : al ≠ .abc) (hA : st.get rA = cv.A) (hB : st.get rB = cv.B) :
     ∀ i, i ∈ D2 al → st.get (rho c a b s i) =
       (st2 cv al (get3 st (idxA al c a)) (get3 st (idxB al c a b))).get i := by
   cases al <;> first | exact absurd rfl hal | skip
   all_goals
-    simp [D2, D1, st2, slotA, slotB, idxA, idxB, rho, put3, upd, base, get3, cX, cY, cZ, hA, hB, rA, rB]
+    simp [D2, D1, st2, slotA, slotB, sc, sa, sb, idxA, idxB, rho, put3, upd, base, get3, cX, cY, cZ, hA, hB, rA, rB]
 
 theorem ag2A (al : Al) (hal : al = .n ∨ al = .ca ∨ al = .cb) (hA : st.get rA = cv.A) (hB : st.get rB = cv.B) :
     ∀ i, i ∈ D2A al → st.get (rho c a b s i) =
       (put2 (put3 (base cv) (slotA al) (get3 st (idxA al c a))) (slotB al) (get2 st (idxB al c a b))).get i := by
   rcases hal with rfl | rfl | rfl <;>
-    simp [D2A, D1, slotA, slotB, idxA, idxB, rho, put3, put2, upd, base, get3, get2, cX, cY, cZ, hA, hB, rA, rB]
+    simp [D2A, D1, slotA, slotB, sc, sa, sb, idxA, idxB, rho, put3, put2, upd, base, get3, get2, cX, cY, cZ, hA, hB, rA, rB]
 
 theorem agAA (al : Al) (hA : st.get rA = cv.A) (hB : st.get rB = cv.B) :
     ∀ i, i ∈ DAA al → st.get (rho c a b s i) =
       (stAA cv al (get2 st (idxA al c a)) (get2 st (idxB al c a b))).get i := by
   cases al <;>
-    simp [DAA, D1a, stAA, slotA, slotB, idxA, idxB, rho, put2, upd, base, get2, cX, cY, hA, hB, rA, rB]
+    simp [DAA, D1a, stAA, slotA, slotB, sc, sa, sb, idxA, idxB, rho, put2, upd, base, get2, cX, cY, hA, hB, rA, rB]
 
 end
 
@@ -203,7 +206,9 @@ theorem place_get3 (hmap : P.map (rho c a b s) = P')
     (by intro i hi
         simp only [List.mem_cons, List.mem_nil_iff, or_false] at hi
         rcases hi with rfl | rfl | rfl
-        exacts [hout.1.1, hout.1.2, hout.2]) hwd hag
+        · exact hout.1.1
+        · exact hout.1.2
+        · exact hout.2) hwd hag
   rw [hmap] at h
   exact Prod.ext (h.2 2 (by simp)) (Prod.ext (h.2 3 (by simp)) (h.2 4 (by simp)))
 
@@ -217,7 +222,8 @@ theorem place_get2 (hmap : P.map (rho c a b s) = P')
     (by intro i hi
         simp only [List.mem_cons, List.mem_nil_iff, or_false] at hi
         rcases hi with rfl | rfl
-        exacts [hout.1, hout.2]) hwd hag
+        · exact hout.1
+        · exact hout.2) hwd hag
   rw [hmap] at h
   exact Prod.ext (h.2 2 (by simp)) (h.2 3 (by simp))
 
@@ -240,7 +246,8 @@ theorem place_opt (hmap : P.map (rho c a b s) = P')
     (by intro i hi
         simp only [List.mem_cons, List.mem_nil_iff, or_false] at hi
         rcases hi with rfl | rfl
-        exacts [hout.1, hout.2]) hwd hag
+        · exact hout.1
+        · exact hout.2) hwd hag
   rw [hmap] at h
   unfold optRes
   rw [h.1]
@@ -258,13 +265,37 @@ theorem optRes_spec {r : Store F × Bool} {c : Nat} {o : Option (P2 F)} (e : opt
   subst e
   unfold optRes at h
   cases hb : r.2
-  · simp only [hb, Bool.false_eq_true, if_false, true_iff] at h
-    exact ⟨by simp [h.1], by intro h'; cases h'⟩
-  · simp only [hb, if_true] at h
-    refine ⟨⟨by intro h'; cases h', fun hx => ?_⟩, fun _ => h.2 _ rfl⟩
-    have := h.1.2 hx
-    cases this
+  · have e1 : (if r.2 = true then some (get2 r.1 c) else none) = none := by simp [hb]
+    rw [e1] at h
+    exact ⟨⟨fun _ => h.1.1 rfl, fun _ => rfl⟩, fun h' => Bool.noConfusion h'⟩
+  · have e1 : (if r.2 = true then some (get2 r.1 c) else none) = some (get2 r.1 c) := by simp [hb]
+    rw [e1] at h
+    exact ⟨⟨fun h' => Bool.noConfusion h', fun hx => by cases h.1.2 hx⟩, fun _ => h.2 _ rfl⟩
 
 end
+
+theorem optRes_none {F : Type} {r : Store F × Bool} {c : Nat} (e : optRes r c = none) : r.2 = false := by
+  unfold optRes at e
+  cases hb : r.2
+  · rfl
+  · rw [hb] at e; cases e
+
+/-! ### tactic macros -/
+
+/-- `hinj` of `place_…` for `S := SW wc wa wb` from the interval hypotheses in the context -/
+macro "inj_w" : tactic => `(tactic| (apply rho_inj_w <;> omega))
+
+/-- `(prog <canonical indices>).map (rho c a b s) = prog <general indices>` for the programs of `Ecp.lean`;
+    index disequalities (`c ≠ a`) are taken from the context -/
+macro "place_map" : tactic => `(tactic|
+  simp [ecpFromAJ, ecpToAJ, ecpNegJ, ecpDblJ, ecpDblJA3, ecpDblAJ, ecpAddJ, ecpAddAJ, ecpSubJ, ecpSubAJ,
+    ecpTplJ, ecpTplJA3, ecpIsOnA, ecpNegA, ecpAATail, ecpAATangent, ecpAddAA, ecpSubAA,
+    Prog.map, Prog.map_block, Instr.map, rho, cX, cY, cZ, rA, rB, Nat.add_assoc, *])
+
+/-- the same for the programs of `Ec2.lean` -/
+macro "place_map2" : tactic => `(tactic|
+  simp [ec2FromALD, ec2ToALD, ec2NegLD, ec2DblLDTail, ec2DblLD, ec2DblALDTail, ec2DblALD, ec2AddLD,
+    ec2AddALDTail, ec2AddALD, ec2SubLD, ec2SubALD, ec2IsOnA, ec2NegA, ec2AddAA, ec2SubAA,
+    Prog.map, Prog.map_block, Instr.map, rho, cX, cY, cZ, rA, rB, Nat.add_assoc, *])
 
 end Bee2V.C06
